@@ -228,6 +228,15 @@ Fixpoint evict_scan (victims : list Z) (placer : Z) (c : cell) (ev : list (Z * (
 
 (* the rest of an iteration once the instance holds an identity and was not restored: schedule-once check,
    feasibility tracker, Bucket.put from the top, eviction scan, and what happens when nothing worked *)
+(* the instance could not be placed: release_identity() and placement_tracker.adjust() *)
+Definition give_up (st : loopst) (aname : Z) (c6 : cell) (ev2 : list (Z * (Z * option Z))) : loopst :=
+  let c7 := release_identity c6 aname in
+  let tr := match get_app aname (c_apps c7) with
+            | Some a7 => tr_adjust (l_tracker st) a7
+            | None => l_tracker st
+            end in
+  st <| l_cell := c7 |> <| l_evicted := ev2 |> <| l_tracker := tr |>.
+
 Definition place_tail (rev_queue : list Z) (st : loopst) (aname : Z) (c4 : cell)
            (ev1 : list (Z * (Z * option Z))) (restore : option (Z * option Z)) : loopst :=
   match get_app aname (c_apps c4) with
@@ -247,16 +256,13 @@ Definition place_tail (rev_queue : list Z) (st : loopst) (aname : Z) (c4 : cell)
         else
           match restore with
           | Some (n, ex) =>
-              let '(c7, _) := srv_restore c6 n aname ex in
-              st <| l_cell := c_upd_app aname (fun x => x <| a_renew := true |>) c7 |>
-                 <| l_evicted := ev2 |>
-          | None =>
-              let c7 := release_identity c6 aname in
-              let tr := match get_app aname (c_apps c7) with
-                        | Some a7 => tr_adjust (l_tracker st) a7
-                        | None => l_tracker st
-                        end in
-              st <| l_cell := c7 |> <| l_evicted := ev2 |> <| l_tracker := tr |>
+              (* a failed renewal goes back to its server; if even that server refuses it now (its partition or
+                 traits changed since), the instance stays pending and gives its identity back *)
+              let '(c7, ok7) := srv_restore c6 n aname ex in
+              if ok7 then st <| l_cell := c_upd_app aname (fun x => x <| a_renew := true |>) c7 |>
+                            <| l_evicted := ev2 |>
+              else give_up st aname c7 ev2
+          | None => give_up st aname c6 ev2
           end
   end.
 
